@@ -302,3 +302,188 @@ class RegionDictRoundTrip:
             yield 'cell k is rebuilt from the origin of cell k (same order, same coordinates)', z3.Implies(
                 z3.And(0 <= k, k < N), z3.And(to_real(o.f((k, 0))) == LON(k), to_real(o.f((k, 1))) == LAT(k)))
         yield 'same spacing', to_real(seen.get('dh')) == dh if seen.get('dh') is not None else z3.BoolVal(False)
+
+
+# ---------------------------------------------------------------------------------------------------
+# C01: the constructor ESTABLISHES the representation invariant RI: CartesianGrid2D._build_bitmask_vec on any set of
+# distinct cells of a lattice (any order, holes, per-cell mask flags)
+# ---------------------------------------------------------------------------------------------------
+from pyvc.contracts import LoopInv, REG
+from pyvc.core import SymList, simp
+
+BUILD = 'csep.core.regions.CartesianGrid2D._build_bitmask_vec'
+CLEANER = 'csep.utils.calc.cleaner_range'
+
+
+@contract
+class CleanerRangeAssumed:
+    """cleaner_range(start, end, h) for a start and an end that are m-1 steps apart: the m edges start + k*h.
+    ASSUMED here (its decimal-string scaling logic is outside the engine; its exactness on decimal grids is the bounded
+    part of C02): used only modularly, by the constructor contract below."""
+    qualname = CLEANER
+    case = 'assumed: edges start + k*h, k = 0 .. m-1, for end == start + (m-1)*h'
+    properties = ('C01', 'C02')
+    assumed = True
+
+    def params(c):
+        return None
+
+    def accepts(c, start, end, h):
+        return c.ctx.ghost.get('lattice_axes') is not None
+
+    def requires(c, start, end, h):
+        return []
+
+    def ensures(c, r, start, end, h):
+        return []
+
+    def result(c, start, end, h):
+        # the constructor calls it for the columns first, then for the rows
+        k = c.ctx.ghost.get('cleaner_calls', 0)
+        c.ctx.ghost['cleaner_calls'] = k + 1
+        axes = c.ctx.ghost['lattice_axes']
+        if k >= len(axes):
+            from pyvc.core import Unsupported
+            raise Unsupported('cleaner_range call that is not one of the lattice axes')
+        a0, dh, n = axes[k]
+        c.ctx.oblige('call:cleaner_range: start is the first lattice edge, end == start + (n-1)*h, h the spacing', z3.And(
+            to_real(start) == a0, to_real(end) == a0 + z3.ToReal(n - 1) * dh, to_real(h) == dh), kind='callpre')
+        g = Arr((n,), lambda ix, a0=a0, dh=dh: a0 + z3.ToReal(to_z3(ix[0])) * dh, 'float64', label='edges')
+        g.grid = (a0, dh, n)
+        return g
+
+
+class BuildLoop(LoopInv):
+    """for i in range(len(self.polygons)): a[idy[i], idx[i], 1] = i; a[idy[i], idx[i], 0] = 0 unless the cell is flagged out.
+    After i cells: every earlier cell j has its number at its lattice position and mask 0/1 by its flag; every lattice position
+    not (yet) taken has mask 1."""
+
+    def havoc(self, I, fr, i, it):
+        a = fr.locals['a']
+        self.A = I.ctx.fresh_fun('mask_and_index', z3.IntSort(), z3.IntSort(), z3.IntSort(), z3.RealSort())
+        A = self.A
+        a.f = lambda ix: A(to_z3(ix[0]), to_z3(ix[1]), to_z3(ix[2]))
+
+    def inv(self, I, fr, i, it):
+        a = fr.locals['a']
+        g = I.ctx.ghost['lattice']
+        cx, cy, nx, ny, active = g['cx'], g['cy'], g['nx'], g['ny'], g['active']
+        i = to_z3(i)
+        M = lambda r, c_: to_real(a.f((r, c_, 0)))
+        IX = lambda r, c_: to_real(a.f((r, c_, 1)))
+        if self.mode == 'prove':
+            j, r, c_ = I.ctx.fresh_int('j!sk'), I.ctx.fresh_int('r!sk'), I.ctx.fresh_int('c!sk')
+            self.sk = (j, r, c_)
+            if simp(i == 0) is not True and 'idx' in fr.locals and 'idy' in fr.locals:
+                cur = simp(i - 1)
+                ix_, iy_ = fr.locals['idx'], fr.locals['idy']
+                yield 'hint:the cell just placed was binned to its own column and row', z3.Implies(
+                    cur >= 0, z3.And(to_z3(ix_.f((cur,))) == cx(cur), to_z3(iy_.f((cur,))) == cy(cur)))
+                yield 'hint:earlier cells sit elsewhere (cells are distinct)', z3.Implies(
+                    z3.And(0 <= j, j < cur), z3.Or(cx(j) != cx(cur), cy(j) != cy(cur)))
+            yield 'placed cells carry their number', z3.Implies(z3.And(0 <= j, j < i), IX(cy(j), cx(j)) == z3.ToReal(j))
+            yield 'placed cells are unmasked iff their flag says so', z3.Implies(
+                z3.And(0 <= j, j < i), M(cy(j), cx(j)) == z3.If(active(j), z3.RealVal(0), z3.RealVal(1)))
+            t = z3.Int('t!free')
+            free = z3.ForAll([t], z3.Implies(z3.And(0 <= t, t < i), z3.Or(cy(t) != r, cx(t) != c_)))
+            yield 'lattice positions not taken by a placed cell are masked', z3.Implies(
+                z3.And(0 <= r, r < ny, 0 <= c_, c_ < nx, free), M(r, c_) == 1)
+        else:
+            j, r, c_, t = z3.Ints('j!inv r!inv c!inv t!inv')
+            yield 'placed', z3.ForAll([j], z3.Implies(z3.And(0 <= j, j < i), z3.And(
+                IX(cy(j), cx(j)) == z3.ToReal(j), M(cy(j), cx(j)) == z3.If(active(j), z3.RealVal(0), z3.RealVal(1)))),
+                patterns=[cx(j), cy(j)])
+            free = z3.ForAll([t], z3.Implies(z3.And(0 <= t, t < i), z3.Or(cy(t) != r, cx(t) != c_)))
+            yield 'free', z3.ForAll([r, c_], z3.Implies(z3.And(0 <= r, r < ny, 0 <= c_, c_ < nx, free), M(r, c_) == 1),
+                                    patterns=[self.A(r, c_, 0)])
+
+    def step_lemmas(self, I, fr, i, it):
+        # the callee contract of bin1d_vec at the cell being placed: its midpoint is binned to the cell's own column / row
+        g = I.ctx.ghost['lattice']
+        calls = [x for x in I.ctx.ghost.get('calls', []) if x[0] == BIN1D]
+        if len(calls) >= 2:
+            rx, ry = calls[0][3], calls[1][3]
+            for f in rx.ghost['bin1d'](to_z3(i), g['cx'](to_z3(i))):
+                yield f
+            for f in ry.ghost['bin1d'](to_z3(i), g['cy'](to_z3(i))):
+                yield f
+
+
+def build_case(with_mask):
+    loop = BuildLoop()
+
+    class B:
+        qualname = BUILD
+        case = 'distinct cells of a lattice, any order, holes allowed, %s' % ('per-cell mask flags' if with_mask else 'no mask flags')
+        properties = ('C01',)
+        loops = {0: loop}
+
+        def params(c):
+            N, nx, ny = c.int('N'), c.int('nx'), c.int('ny')
+            X0, Y0, dh = c.real('X0'), c.real('Y0'), c.real('dh')
+            cx = z3.Function('cx', z3.IntSort(), z3.IntSort())
+            cy = z3.Function('cy', z3.IntSort(), z3.IntSort())
+            flag = c.arr('poly_mask', 'int64', n=N) if with_mask else None
+            active = (lambda k: to_z3(flag.f((k,))) == 1) if with_mask else (lambda k: z3.BoolVal(True))
+            lon = lambda k: X0 + z3.ToReal(cx(to_z3(k))) * dh
+            lat = lambda k: Y0 + z3.ToReal(cy(to_z3(k))) * dh
+
+            def poly(k):
+                x, y = lon(k), lat(k)
+                return c.obj('csep.models.Polygon', origin=(x, y), points=[(x, y), (x, y + dh), (x + dh, y + dh), (x + dh, y)])
+            polys = SymList(N, poly, 'polygons')
+            c.ctx.ghost['lattice'] = dict(cx=cx, cy=cy, nx=nx, ny=ny, active=active, X0=X0, Y0=Y0, dh=dh, N=N)
+            c.ctx.ghost['lattice_axes'] = [(X0, dh, nx), (Y0, dh, ny)]
+            me = c.obj('csep.core.regions.CartesianGrid2D', polygons=polys, poly_mask=flag, dh=dh, name='region')
+            return dict(self=me, _g=c.ctx.ghost['lattice'], _w=[c.int('w%d' % k) for k in range(4)])
+
+        def requires(c, self, _g, _w):
+            cx, cy, nx, ny, N, X0, Y0, dh = (_g[k] for k in ('cx', 'cy', 'nx', 'ny', 'N', 'X0', 'Y0', 'dh'))
+            j, k = z3.Ints('j!rq k!rq')
+            eps = rv(TOL['float64'])
+            mid = lambda a0, cc: a0 + z3.ToReal(cc) * dh + dh / 2
+            out = [N >= 1, nx >= 2, ny >= 2, dh > 0,
+                   z3.ForAll([j], z3.Implies(z3.And(0 <= j, j < N), z3.And(0 <= cx(j), cx(j) < nx, 0 <= cy(j), cy(j) < ny)),
+                             patterns=[cx(j)]),
+                   # distinct cells
+                   z3.ForAll([j, k], z3.Implies(z3.And(0 <= j, j < k, k < N), z3.Or(cx(j) != cx(k), cy(j) != cy(k))),
+                             patterns=[z3.MultiPattern(cx(j), cx(k))]),
+                   # the bounding box is tight: some cell in the first / last column and row
+                   0 <= _w[0], _w[0] < N, cx(_w[0]) == 0, 0 <= _w[1], _w[1] < N, cx(_w[1]) == nx - 1,
+                   0 <= _w[2], _w[2] < N, cy(_w[2]) == 0, 0 <= _w[3], _w[3] < N, cy(_w[3]) == ny - 1,
+                   # the spacing is not lost in the round-off of the coordinates (half a cell exceeds the binning tolerance)
+                   z3.ForAll([j], z3.Implies(z3.And(0 <= j, j < N), z3.And(
+                       dh / 2 > eps * (zabs(mid(X0, cx(j))) + z3.ToReal(cx(j) + 2) * zabs(X0)),
+                       dh / 2 > eps * (zabs(mid(Y0, cy(j))) + z3.ToReal(cy(j) + 2) * zabs(Y0)))), patterns=[cy(j)])]
+            for a0 in (X0, Y0):
+                gr = Arr((nx,), lambda ix: a0, 'float64')
+                gr.grid = (a0, dh, nx)
+                out += Bin1d_f64.requires(c, Arr((N,), lambda ix: 0.0, 'float64'), gr, None, False)
+            return out
+
+        def ensures(c, r, self, _g, _w):
+            cx, cy, nx, ny, N, X0, Y0, dh, active = (_g[k] for k in ('cx', 'cy', 'nx', 'ny', 'N', 'X0', 'Y0', 'dh', 'active'))
+            yield 'returns (mask-and-index array, column edges, row edges)', z3.BoolVal(
+                isinstance(r, tuple) and len(r) == 3 and isinstance(r[0], Arr) and r[0].ndim == 3)
+            a, xs, ys = r
+            yield 'array shape == (rows, columns, 2)', z3.And(to_z3(a.shape[0]) == ny, to_z3(a.shape[1]) == nx, to_z3(a.shape[2]) == 2)
+            kk = c.ctx.fresh_int('k!sk')
+            yield 'column edges are the lattice columns', z3.And(to_z3(xs.shape[0]) == nx, z3.Implies(
+                z3.And(0 <= kk, kk < nx), to_real(xs.f((kk,))) == X0 + z3.ToReal(kk) * dh))
+            yield 'row edges are the lattice rows', z3.And(to_z3(ys.shape[0]) == ny, z3.Implies(
+                z3.And(0 <= kk, kk < ny), to_real(ys.f((kk,))) == Y0 + z3.ToReal(kk) * dh))
+            M = lambda rr, cc: to_real(a.f((rr, cc, 0)))
+            IX = lambda rr, cc: to_real(a.f((rr, cc, 1)))
+            j, rr, cc, t = c.ctx.fresh_int('j!sk'), c.ctx.fresh_int('r!sk'), c.ctx.fresh_int('c!sk'), z3.Int('t!ex')
+            yield 'RI: cell j is found at its lattice position, unmasked iff its flag says so', z3.Implies(
+                z3.And(0 <= j, j < N), z3.And(IX(cy(j), cx(j)) == z3.ToReal(j), M(cy(j), cx(j)) == z3.If(active(j), z3.RealVal(0), z3.RealVal(1))))
+            inb = z3.And(0 <= rr, rr < ny, 0 <= cc, cc < nx)
+            yield 'RI: the mask is 0 or 1 everywhere', z3.Implies(inb, z3.Or(M(rr, cc) == 0, M(rr, cc) == 1))
+            yield 'RI: an unmasked lattice position is the position of an active cell (holes and flagged-out cells are masked)', z3.Implies(
+                z3.And(inb, M(rr, cc) == 0), z3.Exists([t], z3.And(0 <= t, t < N, cx(t) == cc, cy(t) == rr, active(t))))
+    B.__name__ = 'BuildBitmask_%s' % with_mask
+    return B
+
+
+for _wm in (False, True):
+    REG.add(build_case(_wm))
